@@ -135,19 +135,34 @@ Section ReaderProofs.
        is long enough; the current frame is not exhausted *)
     Definition live (orc : list (N * bool)) (st : rstate) (target : N) : Prop :=
       Forall productive orc /\ 1 <= BUFF /\ endpos - r_doff st <= lenN orc /\
-      (r_doff st < endpos -> d_prod st < lenN (content target)).
+      d_prod st < lenN (content target).
 
-    Lemma rloop_nil st target np dst :
-      rloop H content BUFF NOPROG t sfc offset len [] st target np dst =
-      if r_doff st <? w64 (offset + len) then RFuel dst st
-      else if r_doff st =? w64 (offset + len) then ROk len dst st else RSpin st.
-    Proof. reflexivity. Qed.
+    Notation FEnd target := (e_d (ent t (target + 1))).
 
-    Lemma rloop_done orc st target np dst : r_doff st = endpos ->
+    Lemma loop_cond_lt st target : r_doff st < endpos -> loop_cond t offset len st target = Ok true.
+    Proof.
+      intros Hl. unfold loop_cond. rewrite endpos_w64.
+      now replace (r_doff st <? endpos) with true by (symmetry; apply N.ltb_lt; lia).
+    Qed.
+
+    Lemma loop_cond_end st target : r_doff st = endpos -> target < t_len t ->
+      loop_cond t offset len st target = Ok ((0 <? len) && (endpos =? FEnd target)).
+    Proof.
+      intros E Ht. pose proof tlen_small. unfold loop_cond. rewrite endpos_w64, E, N.ltb_irrefl.
+      rewrite (w32_small (target + 1)) by lia. rewrite (wf_in_range t (target + 1) W) by lia. cbn [negb].
+      destruct (0 <? len); reflexivity.
+    Qed.
+
+    (* the read is complete and does not stop at the end of the current frame (or is empty): the call returns *)
+    Lemma rloop_done orc st target np dst : r_doff st = endpos -> target < t_len t ->
+      (0 <? len) && (endpos =? FEnd target) = false ->
       rloop H content BUFF NOPROG t sfc offset len orc st target np dst = ROk len dst st.
     Proof.
-      intros E. destruct orc; cbn [rloop]; rewrite endpos_w64, E, N.ltb_irrefl, N.eqb_refl; reflexivity.
+      intros E Ht Hc. destruct orc; cbn [rloop]; rewrite (loop_cond_end _ _ E Ht), Hc, endpos_w64, E, N.eqb_refl; reflexivity.
     Qed.
+
+    Lemma buf_store_nil (dst : list N) pos : buf_store dst pos [] = dst.
+    Proof. unfold buf_store. cbn [app]. rewrite lenN_nil, N.add_0_r. apply firstN_skipN. Qed.
 
     Lemma dst_ok_step doff k dst : dst_ok doff dst -> offset <= doff -> doff + k <= endpos ->
       dst_ok (doff + k) (buf_store dst (doff - offset) (sliceN x doff k)).
@@ -168,34 +183,107 @@ Section ReaderProofs.
       replace (doff - offset) with 0 by lia. replace (doff + k - offset) with 0 by lia. reflexivity.
     Qed.
 
+    (* the read is complete and stops exactly where the table ends the current frame: the decoder is called with no output
+       room until it reports the end of the frame; then the checksum is compared and the call returns *)
+    Lemma rloop_exact_end : forall orc st target np dst, LI st target dst ->
+      r_doff st = endpos -> 0 < len -> endpos = FEnd target ->
+      result_ok (rloop H content BUFF NOPROG t sfc offset len orc st target np dst).
+    Proof.
+      pose proof eos_lt as Heos. pose proof tlen_small as Hts.
+      induction orc as [|o orc IH]; intros st target np dst L Edone Hlen HFE.
+      - cbn [rloop]. rewrite (loop_cond_end _ _ Edone (li_t _ _ _ L)).
+        replace (0 <? len) with true by (symmetry; apply N.ltb_lt; lia).
+        rewrite HFE, N.eqb_refl. cbn [andb]. cbn. left. eapply LI_InvA; eassumption.
+      - pose proof L as L0.
+        destruct L as [Lt Lcur Lfr Lfin Lp Ldoff Lacc Lend Ldst].
+        pose proof (Lc target Lt) as HL.
+        pose proof (Dmono target (target + 1) ltac:(lia) ltac:(lia)) as Hm1.
+        pose proof (D_eos (target + 1) ltac:(lia)) as Hm2.
+        cbn [rloop]. rewrite (loop_cond_end _ _ Edone Lt).
+        replace (0 <? len) with true by (symmetry; apply N.ltb_lt; lia).
+        rewrite HFE, N.eqb_refl. cbn [andb].
+        rewrite (w32_small (target + 1)) by lia.
+        rewrite (wf_in_range t (target + 1) W) by lia. cbn [negb].
+        replace (r_doff st <? offset) with false by (symmetry; apply N.ltb_ge; lia).
+        rewrite !sub64_small by lia.
+        replace (e_d (ent t (target + 1)) - offset) with len by lia.
+        replace (r_doff st - offset) with len by lia.
+        rewrite N.min_id, N.ltb_irrefl, N.sub_diag.
+        set (st0 := mkR (r_cur st) (r_doff st) (d_frame st) (d_prod st) (d_fin st) (r_acc st)
+                        (EvCall false len len :: r_trace st)).
+        destruct (dcall_spec st0 0 o) as (k & Hk1 & Hk2 & Hkdef & E).
+        { exact Lfin. } { cbn [st0 d_prod d_frame]. rewrite Lfr. exact Lp. }
+        cbn [st0 d_prod d_frame r_cur r_doff r_acc r_trace] in E, Hk2, Hkdef. rewrite Lfr in E, Hk2, Hkdef.
+        rewrite E. clear E.
+        assert (Ek : k = 0) by lia. clear Hkdef. subst k.
+        set (c := content target) in *. set (p := d_prod st) in *.
+        assert (Hp : p = lenN c) by (fold c in HL; lia).
+        rewrite sliceN_0. rewrite N.add_0_r.
+        replace (p =? lenN c) with true by (symmetry; apply N.eqb_eq; exact Hp).
+        rewrite andb_true_r.
+        cbv beta iota zeta. cbn [r_cur r_doff d_frame d_prod d_fin r_acc r_trace].
+        rewrite lenN_nil, buf_store_nil. change (0 =? 0) with true. cbn [andb rev_append].
+        assert (Hsame : (if t_flag t then r_acc st else r_acc st) = r_acc st) by (destruct (t_flag t); reflexivity).
+        rewrite Hsame. rewrite N.add_0_r, (w64_small (r_doff st)) by lia.
+        destruct (NOPROG <? np) eqn:Enp.
+        { (* seekableIO *)
+          cbn [result_ok]. split; [reflexivity|].
+          destruct (snd o).
+          - right. left. cbn [r_cur r_doff]. rewrite Lcur. split; [assumption|lia].
+          - left. unfold InvA. cbn [r_cur r_doff d_frame d_prod d_fin r_acc]. rewrite Lcur. fold c.
+            repeat split; try assumption; try reflexivity; try lia. }
+        destruct (snd o) eqn:Eo.
+        + (* the decoder reports the end of the frame: checksum, then return *)
+          rewrite (wf_in_range t target W) by lia. cbn [negb].
+          assert (Hchk : t_flag t && negb (H (revT (r_acc st)) mod 4294967296 =? e_k (ent t target)) = false).
+          { case_eq (t_flag t); intros Ef; [|reflexivity]. cbn [andb].
+            rewrite (Lacc Ef), revT_rev, rev_involutive. fold c p. rewrite Hp, firstN_all by lia.
+            unfold c. rewrite (Hsum Ef target Lt), N.eqb_refl. reflexivity. }
+          rewrite Hchk. rewrite <- HFE, endpos_w64, Edone, N.ltb_irrefl, N.eqb_refl.
+          cbn. split; [reflexivity|]. split.
+          * unfold dst_ok in Ldst. replace (r_doff st - offset) with len in Ldst by lia. exact Ldst.
+          * right. left. cbn [r_cur r_doff]. rewrite Lcur. split; [assumption|lia].
+        + (* not yet: same state, one more stalled call *)
+          apply IH; try assumption.
+          constructor; cbn [r_cur r_doff d_frame d_prod d_fin r_acc]; try assumption; try reflexivity; try lia.
+    Qed.
+
+    (* the read is complete *)
+    Lemma rloop_at_end orc st target np dst : LI st target dst -> r_doff st = endpos ->
+      result_ok (rloop H content BUFF NOPROG t sfc offset len orc st target np dst) /\
+      (live orc st target -> is_ok (rloop H content BUFF NOPROG t sfc offset len orc st target np dst)).
+    Proof.
+      intros L Edone. pose proof (li_t _ _ _ L) as Lt0.
+      destruct ((0 <? len) && (endpos =? FEnd target)) eqn:Ec.
+      - apply andb_prop in Ec. destruct Ec as [E1 E2]. apply N.ltb_lt in E1. apply N.eqb_eq in E2.
+        split; [apply rloop_exact_end; assumption|].
+        intros (_ & _ & _ & Hav). exfalso.
+        pose proof (Lc target Lt0) as HL. pose proof (li_doff _ _ _ L) as Hd.
+        pose proof (Dmono target (target + 1) ltac:(lia) ltac:(pose proof tlen_small; lia)). lia.
+      - rewrite rloop_done by assumption. split; [|intros _; exact I]. cbn. split; [reflexivity|]. split.
+        + pose proof (li_dst _ _ _ L) as Hd. unfold dst_ok in Hd.
+          replace (r_doff st - offset) with len in Hd by lia. exact Hd.
+        + left. eapply LI_InvA; eassumption.
+    Qed.
+
     Lemma rloop_ok : forall orc st target np dst, LI st target dst ->
       result_ok (rloop H content BUFF NOPROG t sfc offset len orc st target np dst) /\
       (live orc st target -> is_ok (rloop H content BUFF NOPROG t sfc offset len orc st target np dst)).
     Proof.
       pose proof eos_lt as Heos. pose proof tlen_small as Hts.
       induction orc as [|o orc IH]; intros st target np dst L.
-      - rewrite rloop_nil, endpos_w64. pose proof (li_end _ _ _ L).
-        destruct (N.ltb_spec (r_doff st) endpos).
-        + split; [cbn; left; eapply LI_InvA; eassumption|].
-          intros (_ & _ & Hl & _). rewrite lenN_nil in Hl. lia.
-        + replace (r_doff st =? endpos) with true by (symmetry; apply N.eqb_eq; lia).
-          split; [|intros _; exact I].
-          cbn. split; [reflexivity|]. split.
-          * pose proof (li_dst _ _ _ L) as Hd. unfold dst_ok in Hd.
-            replace (r_doff st - offset) with len in Hd by lia. exact Hd.
-          * left. eapply LI_InvA; eassumption.
-      - destruct (N.eq_dec (r_doff st) endpos) as [Edone|Hnd].
-        { rewrite rloop_done by assumption. split; [|intros _; exact I]. cbn. split; [reflexivity|]. split.
-          - pose proof (li_dst _ _ _ L) as Hd. unfold dst_ok in Hd.
-            replace (r_doff st - offset) with len in Hd by lia. exact Hd.
-          - left. eapply LI_InvA; eassumption. }
+      - pose proof (li_end _ _ _ L).
+        destruct (N.eq_dec (r_doff st) endpos) as [Edone|Hnd]; [apply rloop_at_end; assumption|].
+        cbn [rloop]. rewrite loop_cond_lt by lia.
+        split; [cbn; left; eapply LI_InvA; eassumption|].
+        intros (_ & _ & Hl & _). rewrite lenN_nil in Hl. lia.
+      - destruct (N.eq_dec (r_doff st) endpos) as [Edone|Hnd]; [apply rloop_at_end; assumption|].
         destruct L as [Lt Lcur Lfr Lfin Lp Ldoff Lacc Lend Ldst].
         assert (Hlt : r_doff st < endpos) by lia.
         pose proof (Lc target Lt) as HL.
         pose proof (Dmono target (target + 1) ltac:(lia) ltac:(lia)) as Hm1.
         pose proof (D_eos (target + 1) ltac:(lia)) as Hm2.
-        cbn [rloop]. rewrite endpos_w64.
-        replace (r_doff st <? endpos) with true by (symmetry; apply N.ltb_lt; lia).
+        cbn [rloop]. rewrite (loop_cond_lt st target Hlt). cbv iota. rewrite endpos_w64.
         rewrite (w32_small (target + 1)) by lia.
         rewrite (wf_in_range t (target + 1) W) by lia. cbn [negb].
         set (FE := e_d (ent t (target + 1))) in *.
@@ -241,7 +329,7 @@ Section ReaderProofs.
         (* under [live], this call produces at least one byte *)
         assert (Hlive0 : live (o :: orc) st target -> k <> 0).
         { intros (Hpr & HB & _ & Hav) Ek0. destruct (Forall_inv Hpr) as [Ho1 _].
-          specialize (Hav Hlt). fold p c in Hav.
+          fold p c in Hav.
           (* k is the minimum of three positive numbers *)
           rewrite Ek0 in Hkdef.
           destruct Hsp as [(_ & ? & Es & Ep)|(_ & ? & Es & Ep)]; rewrite Es, Ep in Hkdef; lia. }
@@ -295,24 +383,28 @@ Section ReaderProofs.
             pose proof (Hlive0 Lv) as Hkn.
             destruct Lv as (Hpr & HB & Hl & _). pose proof (Forall_inv_tail Hpr) as Hpr'.
             unfold live. cbn [r_doff d_prod]. rewrite lenN_cons in Hl.
-            repeat split; try assumption; try lia.
-          * replace (r_doff st + k =? endpos) with true by (symmetry; apply N.eqb_eq; lia).
+            split; [assumption|]. split; [assumption|]. split.
+            -- clear - Hl Hkn Htgd. lia.
+            -- clear - HLtg Htg2 Htgd. lia.
+          * replace (r_doff st + k =? endpos) with true by (symmetry; apply N.eqb_eq; clear - Hk4 Hstop; lia).
             split; [|intros _; exact I].
             cbn. split; [reflexivity|]. split.
-            -- unfold dst_ok in Hdst'. replace (r_doff st + k - offset) with len in Hdst' by lia. exact Hdst'.
-            -- right. left. cbn [r_cur r_doff]. rewrite Lcur. split; [assumption|lia].
+            -- unfold dst_ok in Hdst'. replace (r_doff st + k - offset) with len in Hdst' by (clear - Hk4 Hstop; lia). exact Hdst'.
+            -- right. left. cbn [r_cur r_doff]. rewrite Lcur. split; [assumption|clear - Hd2; lia].
         + (* frame not complete: same frame, next call *)
           match goal with |- context [rloop _ _ _ _ _ _ _ _ orc ?s3 target ?n3 ?d3] =>
             destruct (IH s3 target n3 d3) as [R1 R2] end.
-          { constructor; cbn [r_cur r_doff d_frame d_prod d_fin r_acc]; try assumption; try reflexivity; try lia. }
+          { constructor; cbn [r_cur r_doff d_frame d_prod d_fin r_acc]; try assumption; try reflexivity;
+              try (clear - Ldoff; lia); try lia. }
           split; [exact R1|]. intros Lv. apply R2.
           pose proof (Hlive0 Lv) as Hkn.
           destruct Lv as (Hpr & HB & Hl & Hav). destruct (Forall_inv Hpr) as [_ Ho2].
           pose proof (Forall_inv_tail Hpr) as Hpr'.
           unfold live. cbn [r_doff d_prod]. rewrite lenN_cons in Hl.
           unfold fin in Efin. rewrite Ho2 in Efin. cbn [andb] in Efin. apply N.eqb_neq in Efin.
-          repeat split; try assumption; try lia.
-          intros _. fold c. lia.
+          split; [assumption|]. split; [assumption|]. split.
+          * clear - Hl Hkn. lia.
+          * fold c p. clear - Hk2 Efin. lia.
     Qed.
   End Call.
 
@@ -328,27 +420,15 @@ Section ReaderProofs.
     intros I Hr. pose proof eos_lt as Heos. pose proof tlen_small as Hts.
     unfold seekable_decompress.
     rewrite (wf_in_range t (t_len t) W) by lia. cbn [negb].
-    rewrite (w64_small (offset + len)) by lia.
-    replace (eos <? offset + len) with false by (symmetry; apply N.ltb_ge; lia).
     destruct (offset_to_frame_spec t offset W) as [Hbeyond Hin].
-    destruct (N.le_gt_cases eos offset) as [Hge|Hlt].
-    - (* offset = end of the content, len = 0 *)
+    destruct (N.leb_spec eos offset) as [Hge|Hlt].
+    - (* offset = end of the content, len = 0: returns 0, cache untouched *)
       assert (offset = eos) by lia. assert (len = 0) by lia. subst offset len.
-      rewrite (Hbeyond ltac:(lia)). rewrite (w32_small (t_len t)) by lia.
-      assert (Hdone : forall s, r_doff s = eos -> Inv s ->
-                result_ok eos 0 dst0 (rloop H content BUFF NOPROG t sfc eos 0 orc s (t_len t) 0 dst0) /\
-                (live_call eos 0 orc -> is_ok (rloop H content BUFF NOPROG t sfc eos 0 orc s (t_len t) 0 dst0))).
-      { intros s Es Is. rewrite (rloop_done eos 0 Hr) by lia. split; [|intros _; exact Logic.I].
-        cbn. split; [reflexivity|]. split; [|assumption]. now rewrite sliceN_0, skipN_0. }
-      unfold prelude, restart.
-      destruct (negb (t_len t =? r_cur st) || (eos <? r_doff st)) eqn:Ere.
-      + rewrite (wf_in_range t (t_len t) W) by lia. cbn [negb].
-        apply Hdone; [reflexivity|]. right. right. left. cbn. split; reflexivity.
-      + apply orb_false_elim in Ere. destruct Ere as [E1 E2].
-        apply negb_false_iff, N.eqb_eq in E1. apply N.ltb_ge in E2.
-        apply Hdone; [|assumption].
-        destruct I as [(A1 & _)|[(B1 & _)|[(C1 & C2)|C3]]]; lia.
-    - destruct (Hin Hlt) as (tg & Etg & Htg & Htg1 & Htg2). rewrite Etg.
+      split; [|intros _; exact Logic.I].
+      cbn. split; [reflexivity|]. split; [|assumption]. now rewrite sliceN_0, skipN_0.
+    - rewrite sub64_small by lia.
+      replace (eos - offset <? len) with false by (symmetry; apply N.ltb_ge; lia).
+      destruct (Hin Hlt) as (tg & Etg & Htg & Htg1 & Htg2). rewrite Etg.
       rewrite (w32_small tg) by lia.
       pose proof (Lc tg Htg) as HL.
       unfold prelude, restart.
@@ -370,7 +450,7 @@ Section ReaderProofs.
             unfold dst_ok. replace (r_doff st - offset) with 0 by lia. now rewrite sliceN_0, skipN_0. }
           split; [exact R1|]. intros (Hpr & HB & Hl). apply R2.
           unfold live. repeat split; try assumption; try lia.
-          intros _. rewrite <- E1 in A4, A5. lia.
+          rewrite <- E1 in A4, A5. lia.
         * rewrite <- E1 in B2. lia.
   Qed.
 
@@ -586,6 +666,11 @@ Lemma failed_seek_keeps_invariant content t st target : wf_table t ->
   Inv content t (restart_seek_failed t false st target).
 Proof.
   intros W. right. right. right. cbn [restart_seek_failed r_cur]. pose proof (wf_small t W). lia.
+Qed.
+(* fix b978b70: after a decoder error the reader is positioned nowhere, whatever it was doing *)
+Lemma decoder_failed_keeps_invariant content t st : wf_table t -> Inv content t (decoder_failed st).
+Proof.
+  intros W. right. right. right. cbn [decoder_failed r_cur]. pose proof (wf_small t W). lia.
 Qed.
 Lemma retry_after_clean_failure :
   exists st', seekable_decompress ex_H ex_content 4 16 ex_t0 true
